@@ -15,7 +15,7 @@ func defC11(mode int) *ph.Def {
 		},
 		Cmds: []*ph.CmdDef{
 			{Name: "c", Opts: []ph.OptDef{{Name: "creq", Kind: ph.Str, Required: true, Env: "VERIF_C11_CREQ"}},
-				Cmds: []*ph.CmdDef{{Name: "e", Opts: []ph.OptDef{{Name: "ereq", Kind: ph.Int, Required: true, ReqMsg: "ereq is mandatory"}}}}},
+				Cmds: []*ph.CmdDef{{Name: "e", Opts: []ph.OptDef{{Name: "ereq", Kind: ph.Int, Required: true, ReqMsg: "ereq is mandatory (100% of the time, %d or %s)"}}}}},
 			{Name: "n", NoFn: true},
 		},
 	}}
@@ -27,7 +27,7 @@ func defC11b(mode int) *ph.Def {
 		Opts: []ph.OptDef{{Name: "v", Kind: ph.Bool}},
 		Cmds: []*ph.CmdDef{
 			{Name: "c", Opts: []ph.OptDef{{Name: "creq", Kind: ph.Str, Required: true, Env: "VERIF_C11_CREQ"}, {Name: "cq2", Kind: ph.Bool, Required: true, ReqMsg: "cq2 please"}, {Name: "copt", Kind: ph.StrOpt, Required: true, DefS: "d", ReqMsg: "copt wanted"}},
-				Cmds: []*ph.CmdDef{{Name: "e", Opts: []ph.OptDef{{Name: "ereq", Kind: ph.Int, Required: true, ReqMsg: "ereq is mandatory"}}}}},
+				Cmds: []*ph.CmdDef{{Name: "e", Opts: []ph.OptDef{{Name: "ereq", Kind: ph.Int, Required: true, ReqMsg: "ereq is mandatory (100% of the time, %d or %s)"}}}}},
 			{Name: "w", Unset: true, Unknown: 3, Opts: []ph.OptDef{{Name: "wo", Kind: ph.Bool}}},                                                   // wrapper: inherits nothing
 			{Name: "p", Opts: []ph.OptDef{{Name: "preq", Kind: ph.Str, Required: true, ReqMsg: "preq needed", PreValue: []string{"from-config"}}}}, // a value seeded with SetValue is not "supplied"
 		},
@@ -241,7 +241,7 @@ func init() {
 	parserJudges["C11"] = func(pc *parserCase, verbose bool) []string { m, _ := c11Judge(pc, verbose); return m }
 	register(&Check{
 		ID:        "C11",
-		QuickSecs: 120, ThoroSecs: 1500,
+		QuickSecs: 300, ThoroSecs: 1500,
 		Rule: "input-space exploration: two trees with required options at the root, on a command and two levels down (inherited), with and without custom message, one bound to an environment variable; every argv of length <= L over 19 tokens (each required option by name, alias, abbreviation; command names; help option, its abbreviation and alias; help command; topics; positional) x 3 modes x environment {unset, set}; " +
 			"Parse / Dispatch errors (errors.Is ErrorParsing, custom text), Writer contents (help text of the right level) and instrumented CommandFns compared with the reference model; every argv of length <= 3 that supplies all required options is also given to a program object that already served one of 6 earlier rounds and must again run its function without a required-option error; distinct_nontrivial = distinct in-domain cases",
 		Assume: []string{"other trees and argv longer than L are not covered"},
